@@ -187,7 +187,7 @@ def cq(s):
 
 
 def main():
-    o = ['From Coq Require Import List String Bool.', 'Import ListNotations.', 'Open Scope string_scope.',
+    o = ['From Coq Require Import List String Bool NArith.', 'Import ListNotations.', 'Open Scope string_scope.',
          'Inductive effect := EOpen (mode : string) (enc : option string) | EWrite (what : string) | EValidate | EClose.']
     side = {}
     try:
@@ -211,14 +211,14 @@ def main():
         side['opens'], side['prints'] = opens, prints
         o.append('Definition tr_io_ok := true.')
         o.append('(* file, line, mode, explicit encoding *)')
-        o.append('Definition open_sites : list (string * nat * string * option string) := [' + '; '.join(
-            '(%s, %d%%nat, %s, %s)' % (cq(f), ln, cq(m), 'None' if e is None else '(Some %s)' % cq(e)) for f, ln, m, e in opens) + '].')
-        o.append('Definition print_sites : list (string * nat) := [' + '; '.join('(%s, %d%%nat)' % (cq(f), ln) for f, ln in prints) + '].')
+        o.append('Definition open_sites : list (string * N * string * option string) := [' + '; '.join(
+            '(%s, %d%%N, %s, %s)' % (cq(f), ln, cq(m), 'None' if e is None else '(Some %s)' % cq(e)) for f, ln, m, e in opens) + '].')
+        o.append('Definition print_sites : list (string * N) := [' + '; '.join('(%s, %d%%N)' % (cq(f), ln) for f, ln in prints) + '].')
     except Fail as ex:
         side['opens'] = 'FAILED: ' + str(ex)
         o.append('Definition tr_io_ok := false.')
-        o.append('Definition open_sites : list (string * nat * string * option string) := [].')
-        o.append('Definition print_sites : list (string * nat) := [].')
+        o.append('Definition open_sites : list (string * N * string * option string) := [].')
+        o.append('Definition print_sites : list (string * N) := [].')
     o.append('Inductive cache_shape := PublishThenFill | ComputeThenPublish | UnknownShape.')
     caches = []
     for rel, cls, fn, attr in (('musicxml/xsd/xsdcomplextype.py', 'XSDComplexType', 'get_xsd_attributes', '_XSD_ATTRIBUTES'),
